@@ -252,7 +252,8 @@ def build_pool(seed, tier):
                 members.append({"op": "parse", "sql": q, "read": d if own else rd, "error_level": lvl})
         elif kind == "tokenize":
             rd = rng.choice([None, "bigquery", "snowflake", "duckdb", "postgres", "mysql", "tsql"])
-            for d, q in rng.sample(stateful, 8):
+            lexical = [x for x in corpus.FAILING if "unterminated" in x[1]]  # inputs the tokenizer itself rejects
+            for d, q in lexical + rng.sample(stateful, 6):
                 members.append({"op": "tokenize", "sql": q, "read": rd})
         else:
             rd = rng.choice(["bigquery", "snowflake", "duckdb", "postgres", "spark", "mysql"])
